@@ -20,7 +20,9 @@ pub struct CheckDef {
 
 pub mod shapes;
 pub mod common;
+pub mod c01;
 pub mod c02;
+pub mod c03;
 pub mod c04;
 pub mod c05;
 pub mod c06;
@@ -28,7 +30,7 @@ pub mod c07;
 pub mod c16;
 
 pub fn all() -> Vec<&'static CheckDef> {
-    vec![&c02::DEF, &c04::DEF, &c05::DEF, &c06::DEF, &c07::DEF, &c16::DEF]
+    vec![&c01::DEF, &c02::DEF, &c03::DEF, &c04::DEF, &c05::DEF, &c06::DEF, &c07::DEF, &c16::DEF]
 }
 
 pub fn find_check(id: &str) -> Option<&'static CheckDef> {
